@@ -5,6 +5,7 @@
    textx/model.py on every run. *)
 From TxV Require Import Core.Base Model.PegSyntax Model.Peg Model.Build.
 From TxV Require Import Model.ErrLoc Gen.SrcLoc Proofs.ErrLocProofs Proofs.ErrLocSrcProofs Model.ErrLocLoad Proofs.ErrLocLoadProofs.
+From TxV Require Import Proofs.PegTerm Proofs.ErrLocBoundProofs.
 
 (* object processor raising a TextXError (through textxerror_wrap or not): every field it supplied is
    kept, every other one is the location of the processed object, including nchar *)
@@ -134,3 +135,60 @@ Example C33_composed_nonvacuous :
   = Some (Fails {| r_file := Some [98]%N; r_line := Some 1; r_col := Some 3; r_nchar := Some 6 |}).
 Proof. split; [eexists; eexists; vm_compute; reflexivity | vm_compute; reflexivity]. Qed.
 Print Assumptions C33_composed_nonvacuous.
+
+(* ---- without a numeric bound: positions of an ACCEPTED parse stay inside the text.
+   orc_sane (Proofs/PegTerm.v): every regex / ignore-case match reported by the oracle lies inside the input.
+   For every grammar table, config, such oracle, memo flag and fuel: a well-formed node (C06's wf_tree: non-empty
+   terminals) of the parse result starts inside the text (terminal invariant of Proofs/PegInv.v). *)
+Theorem C33_parsed_node_in_text : forall g c orc memo fuel input r t,
+  orc_sane g input orc -> Peg.run g c orc memo fuel input = Parsed r ->
+  In t (res_subtrees r) -> wf_tree t = true -> tpos t <= length input.
+Proof. exact parsed_node_in_text. Qed.
+Print Assumptions C33_parsed_node_in_text.
+
+(* parser + builder + dispatch: the object built from a well-formed common-rule node of the parse of model m's
+   text is processed with the location of that node; no hypothesis on positions *)
+Theorem C33_parsed_object_error : forall g c orc memo fuel mm grp auto use_grp fs m r n kids top v top' wrapped err,
+  orc_sane g (s_text (file_at fs m)) orc ->
+  Peg.run g c orc memo fuel (s_text (file_at fs m)) = Parsed r ->
+  In (NT n kids) (res_subtrees r) -> wf_tree (NT n kids) = true ->
+  pnode g mm (s_text (file_at fs m)) grp auto use_grp (NT n kids) top = BOk (v, top') ->
+  (exists cl a, info mm n = IRule RCommon cl a) ->
+  process_built_node process_fills location_keys g mm grp auto use_grp fs m (NT n kids) top wrapped (RaisesTx err)
+  = Some (Fails (completed err (obj_location fs m (tpos (NT n kids)) (tend (NT n kids))))).
+Proof. exact parsed_object_processor_error. Qed.
+Print Assumptions C33_parsed_object_error.
+
+Theorem C33_parsed_object_wrapped_exception : forall g c orc memo fuel mm grp auto use_grp fs m r n kids top v top',
+  orc_sane g (s_text (file_at fs m)) orc ->
+  Peg.run g c orc memo fuel (s_text (file_at fs m)) = Parsed r ->
+  In (NT n kids) (res_subtrees r) -> wf_tree (NT n kids) = true ->
+  pnode g mm (s_text (file_at fs m)) grp auto use_grp (NT n kids) top = BOk (v, top') ->
+  (exists cl a, info mm n = IRule RCommon cl a) ->
+  process_built_node process_fills location_keys g mm grp auto use_grp fs m (NT n kids) top true RaisesOther
+  = Some (Fails (obj_location fs m (tpos (NT n kids)) (tend (NT n kids)))).
+Proof. exact parsed_object_wrapped_exception. Qed.
+Print Assumptions C33_parsed_object_wrapped_exception.
+
+(* grammar  M: 'a';  on the text "\n a\n": accepted, the node of M is in the result, well-formed, and its
+   object is processed at line 2, column 2, nchar 1 *)
+Example C33_parsed_nonvacuous :
+  let g := mkGrammar [mkNode KSeq [1;3] None false [] false false None None;
+                      mkNode KSeq [2] None false [77]%N true false None None;
+                      mkNode (KStr [97]%N None) [] None false [] false false None None;
+                      mkNode KEOF [] None false [] false false None None] 0 None in
+  let fs := [ {| s_name := Some [109]%N; s_text := [10;32;97;10]%N |} ] in
+  let orc := fun (_ _ : nat) => @None nat in
+  let node := NT 1 [T 2 2 1 true] in
+  orc_sane g (s_text (file_at fs 0)) orc /\
+  (exists r, Peg.run g (mkConfig true [32;10]%N) orc false 20 (s_text (file_at fs 0)) = Parsed r /\ In node (res_subtrees r)) /\
+  wf_tree node = true /\
+  process_built_node process_fills location_keys g [IOther; IRule RCommon [77]%N []] (fun _ _ => None) true false fs 0
+     node None false (RaisesTx no_loc)
+  = Some (Fails {| r_file := Some [109]%N; r_line := Some 2; r_col := Some 2; r_nchar := Some 1 |}).
+Proof.
+  cbv zeta. split; [split; intros; discriminate|].
+  split; [eexists; split; [vm_compute; reflexivity | cbn; left; reflexivity]|].
+  split; vm_compute; reflexivity.
+Qed.
+Print Assumptions C33_parsed_nonvacuous.
